@@ -576,3 +576,41 @@ func TestD19_BuildFuncNilInput(t *testing.T) {
 		t.Fatalf("as provider: err=%v", res.Err())
 	}
 }
+
+// D20 (C18, C20): Dijkstra kept distances in an int32 although edge weights and
+// the returned distances are int: a weight or path sum of 2^31 or more was
+// truncated, so reachable vertices got a wrong (even negative) distance and a
+// wrong predecessor, and the result disagreed with TopoShortestPath.
+func TestD20_DijkstraDistancesBeyond32Bits(t *testing.T) {
+	if int64(int(1)<<40) != int64(1)<<40 {
+		t.Skip("int is 32 bits wide here")
+	}
+	var g graph.Graph
+	for i := 0; i < 4; i++ {
+		g.Add(i)
+	}
+	big := int(1) << 31
+	// 0 -> 1 directly costs 2^31+10; via 2 it costs 2^31; via 3 it costs 2*(2^31)
+	g.AddEdgeWeighted(0, 1, big+10)
+	g.AddEdgeWeighted(0, 2, big-5)
+	g.AddEdgeWeighted(2, 1, 5)
+	g.AddEdgeWeighted(0, 3, big)
+	g.AddEdgeWeighted(3, 1, big)
+	distTo, edgeTo := g.Dijkstra(0)
+	want := map[int]int{0: 0, 1: big, 2: big - 5, 3: big}
+	for v, w := range want {
+		if distTo[v] != w {
+			t.Errorf("distance to %d is %d, want %d", v, distTo[v], w)
+		}
+	}
+	path := g.EdgeToPath(1, edgeTo)
+	if len(path) != 3 || path[0] != 0 || path[1] != 2 || path[2] != 1 {
+		t.Errorf("path to 1 is %v, want [0 2 1]", path)
+	}
+	tdist, _ := g.TopoShortestPath(g.KahnSort())
+	for v, w := range want {
+		if v != 0 && tdist[v] != w {
+			t.Errorf("TopoShortestPath distance to %d is %d, want %d", v, tdist[v], w)
+		}
+	}
+}
